@@ -361,6 +361,14 @@ def F36(fil):
     return out != ("ok", True), f"single-polarisation (NPOL=1) 8-bit PSRFITS: read_block(0, 24) equals the oracle -> {out}"
 
 
+def F37(fil):
+    from sigpyproc.io import sigproc
+    enc = sigproc.encode_key("source_name", value="SGR_\u03b2", value_type="str")
+    declared = int(np.frombuffer(enc[4 + len("source_name"): 8 + len("source_name")], dtype=np.uint32)[0])
+    actual = len(enc) - 8 - len("source_name")
+    return declared != actual, f"encode_key('source_name', 'SGR_\u03b2'): length prefix {declared}, {actual} bytes follow"
+
+
 ALL = {k: v for k, v in globals().items() if k.startswith("F") and k[1:].isdigit()}
 
 
